@@ -23,6 +23,9 @@ CONFIGS = [
     dict(name="three-models-max2", models=["m1", "m2", "m3"], modelof=dict(q1="m1", q2="m2", q3="m3", q4="m1"),
          optof=dict(q1=0, q2=0, q3=0, q4=0), keepof=dict(q1=-1, q2=1, q3=0, q4=-1), maxrunners=2, queue=4, unload=False,
          ping=False, loadfail=True, tinygpu=False),
+    dict(name="two-gpus-parallel2", models=["m1", "m2"], modelof=dict(q1="m1", q2="m2", q3="m2"), optof=dict(q1=0, q2=0, q3=0),
+         keepof=dict(q1=-1, q2=-1, q3=-1), maxrunners=2, queue=3, unload=False, ping=False, loadfail=False, tinygpu=False,
+         twogpus=True, parallel=2),
 ]
 
 
@@ -87,15 +90,17 @@ def run(prop, tier="quick", seed=1, replay=None):
                     cov["configs"].append(dict(config=c["name"], distinct=r["distinct"], generated=r["generated"]))
                 hist = 60
                 cfg = vf.write_cfg(wd, f"Gen_{mod}.cfg", consts(c, maxhist=hist, runner_ids=4), GEN_BODY)
-                hs, _ = vf.gen_simulate(mod, cfg, wd, num=60 if quick else 600, depth=hist + 2, seed=seed * 10 + ci)
-                hs = vf.dedupe([h[:-1] for h in hs])     # the printed candidates differ in their last step only
+                hs, _ = vf.gen_simulate(mod, cfg, wd, num=120 if quick else 1500, depth=hist + 2, seed=seed * 10 + ci)
+                # candidates printed at the length bound differ in their last step only: keep the common part
+                hs = vf.dedupe([h[:-1] if len(h) >= hist else h for h in hs])
                 import random
                 rnd = random.Random(seed * 7 + ci)
                 rnd.shuffle(hs)
-                for h in hs[:(60 if quick else 1500)]:
+                for h in hs[:(48 if quick else 1200)]:
                     tid += 1
                     hc = dict(name=c["name"], maxrunners=c["maxrunners"], queue=c["queue"], modelof=c["modelof"],
-                              optof=c["optof"], keepof=c["keepof"], tinygpu=c["tinygpu"], noise=False)
+                              optof=c["optof"], keepof=c["keepof"], tinygpu=c["tinygpu"], noise=False,
+                              twogpus=c.get("twogpus", False), parallel=c.get("parallel", 1))
                     behaviours.append(dict(t=tid, cfg=hc, hist=h, seed=seed * 1000 + tid))
                     if tid % 3 == 0:   # the same steps, free running with random delays at the gates
                         tid += 1
